@@ -78,10 +78,11 @@ func runInput(kind string, rd io.Reader) (res string) {
 		}
 	}()
 	switch kind {
-	case "ps":
+	case "ps", "psc":
 		intp := postscript.NewInterpreter()
 		c := newCanon(intp)
 		intp.MaxOps = 200000
+		intp.CheckStart = kind == "psc"
 		return c.render(errClass(intp.Execute(rd)))
 	case "cmap":
 		d, err := postscript.ReadCMap(rd)
@@ -223,6 +224,15 @@ func suiteSched(o *suiteOut, r *rng, tier string, n int) {
 		np = n
 	}
 	pool := inputPool(r, np)
+	// inputs ending in the middle of a look-ahead: the scanner peeks two bytes after '<', '>' and at the
+	// start check, four at `eexec`
+	for _, p := range []string{"1 >x 2", "1 >", "1 > ", ">", "1 <", "1 <<", "1 <~", "(abc", "/", "/a", "1 2 add %", "1 2 add\r", "<41", "<~87cUR", "{ 1", "1 }",
+		"currentfile eexec", "currentfile eexec ab", "currentfile eexec abc", "currentfile eexec \x01\x02\x03", "1 >x 2 >> 3 >"} {
+		pool = append(pool, input{"ps", []byte(p), "fixed program"})
+	}
+	for _, p := range []string{"xyz", "x", "", "%", "%!", "%!PS\n1 2", "%x", "% !", "%!\n>x"} {
+		pool = append(pool, input{"psc", []byte(p), "start check"})
+	}
 	for idx, in := range pool {
 		base := runInput(in.kind, bytes.NewReader(in.data))
 		o.count("inputs of kind " + in.kind)
